@@ -14,7 +14,11 @@ SCHEMES = [None, _Scheme(), _Scheme()]
 def mk(spec, k=0):
     sch = SCHEMES[k % len(SCHEMES)]
     if spec['op'] == 'ctor':
-        return Group(sch, spec['c'], list(spec['ps']))
+        # the peripheral names may be given as any iterable (docstring): vary the container with the case
+        ps = list(spec['ps'])
+        how = (k + len(ps) + len(spec['c'])) % 5
+        arg = [ps, tuple(ps), iter(ps), (x for x in ps), map(str, ps)][how]
+        return Group(sch, spec['c'], arg)
     return Group.parse(sch, spec['text'])
 
 
